@@ -3,6 +3,7 @@ import sys, struct, dis, types, binascii
 import code_data as cd
 
 V = 'v%d%d' % sys.version_info[:2]
+OPMAP = dis.opmap        # C15 replaces this with the opcode numbering of the interpreter that wrote a document
 
 def s_str(s):
     try:
@@ -62,7 +63,7 @@ def s_arg(a):
     return 'r%d' % a
 
 def s_instr(i):
-    return 'I %d %s %s %s %s' % (dis.opmap[i.name], s_arg(i.arg), s_opt(str, i._n_args_override),
+    return 'I %d %s %s %s %s' % (OPMAP[i.name], s_arg(i.arg), s_opt(str, i._n_args_override),
                                  s_opt(str, i.line_number), s_list(str, i._line_offsets_override))
 
 def s_args(a):
@@ -129,7 +130,7 @@ def s_json(j, key=None, ctx=None):
         if key == 'string': return 'R' + s_str(ast.literal_eval(j))[1:]
         if key == 'bytes': return 'B' + binascii.hexlify(base64.b64decode(j)).decode('ascii')
         if key == 'name' and ctx == 'instr':
-            return 'i%d' % dis.opmap[j] if j in dis.opmap else 'BADOP'
+            return 'i%d' % OPMAP[j] if j in OPMAP else 'BADOP'
         return s_str(j)
     if isinstance(j, list):
         sub = {'blocks': 'block', 'block': 'instr'}.get(ctx)
